@@ -14,7 +14,8 @@ def plan(tier):
             "sub_nearly_equal_logs_large_magnitude", "exp_range_edge_sweep", "exp_biased_exponent_minus_one", "more_than_42000_summands",
             "grid_more_than_100000_points", "more_than_2400000_summands", "grid_more_than_2400000_points",
             "index_driven_density", "operators_vs_named_methods", "cap_overshoot_epsilon_relations",
-            "sum_permuted", "cumsum_inexact_size_hint"],
+            "sum_permuted", "cumsum_inexact_size_hint", "integration_helper_reentered_from_density",
+            "fine_grid_far_from_origin"],
         "rule": "self-contained operation events (operands and result as fixed-point images relative to the largest "
                 "operand) over a log grid of magnitudes (ratios 1 .. 1e-300 and beyond f64's range), the switch "
                 "points -0.693 and -500, lists of 0..200 elements, four grid sizes and non-uniform grids over six "
